@@ -390,6 +390,12 @@ class OracleMixin:
             else:
                 self.sit["C12.flush_raised_injected"] += 1
             return
+        if not f.rex:
+            for tid in f.must:
+                t = pr.tasks[tid]
+                if t.forget == "kept" and self.failed_with_injected(t) is not None:
+                    self.violate("C12.must_raise", f"flush() returned normally although task {tid}, ended before the call and still remembered, had failed with {self.failed_with_injected(t)!r}")
+                    break
         for tid in f.must:
             t = pr.tasks[tid]
             t.forget = "forgotten"
@@ -424,7 +430,24 @@ class OracleMixin:
             self.violate(f"C12.raised_identity.{kind}", f"gather_and_close raised {type(e).__name__}: {e!r}, which no task or callback raised", pool=pr.idx)
             self.violate(f"C08.returns_normally.{kind}", f"gather_and_close raised {type(e).__name__}: {e!r}, which no task or callback raised", pool=pr.idx)
 
-    def on_gac_return(self, pr, before):
+    def failed_with_injected(self, t):
+        """The exception (one of those the scenario injected) with which this pool task ended, if any."""
+        task = t.task
+        if task is None or not task.done() or task.cancelled():
+            return None
+        e = task.exception()
+        return e if e is not None and self.is_injected(e) else None
+
+    def on_gac_return(self, pr, before, rex=True):
+        if not rex:
+            # "an exception raised this way is what flush()/gather_and_close() raise": every task the pool still
+            # remembered is gathered by the close, so a failed one among them must have surfaced
+            for t in pr.tasks.values():
+                if t.forget == "kept" and self.failed_with_injected(t) is not None:
+                    self.violate("C12.must_raise", f"gather_and_close() returned normally although task {t.tid}, still remembered, had failed with {self.failed_with_injected(t)!r}")
+                    break
+            else:
+                self.sit["C12.gac_returned_nothing_failed"] += 1
         if pr.L:
             self.violate("C08.waits_all", f"gather_and_close returned while {pr.L} workers are still live")
         if pr.cb_in_progress:
@@ -432,6 +455,13 @@ class OracleMixin:
         for rq in before:
             if rq.cancelled_at is None and rq.meta is not None and not rq.meta.done():
                 self.violate("C08.waits_all", f"gather_and_close returned while the spawner of request {rq.idx} ({rq.kind}) is still working")
+        for rq in pr.reqs:
+            # a group cancelled before the call (even in the same tick): its spawner has to be over, too, when the pool is declared closed
+            if rq.accepted and rq.cancelled_at is not None and rq.cancelled_at < pr.gac_call_at and rq.meta is not None and not rq.meta.done():
+                self.violate("C08.waits_all", f"gather_and_close returned while the spawner of request {rq.idx} ({rq.kind}), cancelled before the call, has not finished")
+                break
+        else:
+            self.sit["C08.cancelled_spawners_over_at_return"] += 1
         o = pr.obj
         if o.num_running or o.num_cancelled or o.num_ended:
             self.violate("C08.empty", f"after gather_and_close: running={o.num_running} cancelled={o.num_cancelled} ended={o.num_ended}")
